@@ -2337,3 +2337,38 @@ def check_tolerance_args(case):
 
 
 SUBCHECKS.append(SubCheck("tolerance_args", check_tolerance_args, _tolarg_case, lambda c: f"{c['fn']},{c['side']},tols={c['tols']},{c['how']}", quick=2500, thorough=40000, shards=4))
+
+
+# Scale: "A commutes with A^dagger" does not depend on the size of A, and numpy.allclose(AA^dagger, A^dagger A, rtol, atol)
+# scales with it through rtol.  (Seeded change C16-u3 compared the commutator with 0 instead, leaving only atol: exactly
+# normal matrices of norm ~1e5 were rejected on rounding alone.  Every generated matrix used to have norm O(1).)
+@st.composite
+def _normal_scale_case(draw):
+    return {"n": draw(st.integers(2, 6)), "seed": draw(gen.SEED), "cplx": draw(st.booleans()), "scale": draw(st.sampled_from([1.0, 1e3, 1e5, 1e6]))  # not below 1: a tiny matrix is normal "within atol" by the library's own tolerance, "normal": draw(st.booleans())}
+
+
+def check_normal_scale(case):
+    from toqito.matrix_props import is_normal
+
+    n, c = case["n"], case["scale"]
+    g = gen.rng(case["seed"] // 7 + 5)
+    if case["normal"]:
+        u = gen.rand_unitary(case["seed"], n, real=not case["cplx"])
+        d = g.normal(size=n) + (1j * g.normal(size=n) if case["cplx"] else 0)
+        a = (u * d) @ u.conj().T
+        if not case["cplx"]:
+            a = np.real(a)
+    else:
+        a = np.triu(g.normal(size=(n, n)) + (1j * g.normal(size=(n, n)) if case["cplx"] else 0))
+        a[0, n - 1] += 2.0  # strictly upper-triangular part: clearly non-normal
+    a = a / np.linalg.norm(a, 2)
+    comm = np.linalg.norm(a @ a.conj().T - a.conj().T @ a, 2)
+    if case["normal"] and comm > 1e-13:
+        raise Inconclusive("construction-inexact")
+    if not case["normal"] and comm < 1e-2:
+        raise Inconclusive("not non-normal by margin")
+    got = bool(is_normal(c * a))
+    req(got == case["normal"], f"is_normal(c*A) = {got} for c = {c:g} and a matrix with ||[A, A^dagger]|| / ||A||^2 = {comm:.1e} (expected {case['normal']})", "is_normal:scale")
+
+
+SUBCHECKS.append(SubCheck("is_normal_scale", check_normal_scale, _normal_scale_case, lambda c: f"scale={c['scale']:g},{'normal' if c['normal'] else 'not'}", quick=1000, thorough=20000, shards=4))
